@@ -10,7 +10,8 @@ Record fobs := mkO {
   o_err : N;               (* 0 none, 1 injected fault, 2 duplicate key, 3 refused *)
   o_ran : N;               (* executions of the business callback *)
   o_status : N;            (* committed fence status of the key afterwards, 0 = no row *)
-  o_biz : N * N * N        (* committed try / confirm / cancel counters of the key afterwards *)
+  o_biz : N * N * N;       (* committed try / confirm / cancel counters of the key afterwards (first row) *)
+  o_biz2 : N * N * N       (* the second row each business step updates: must always equal the first *)
 }.
 
 Record fcase := mkFC {
@@ -45,7 +46,8 @@ Definition cmp_thread (off : N) (t : thread) (c : cell) (o : fobs) : list N :=
   (if err_code (t_err t) =? o_err o then [] else [off + 2]) ++
   (if N.of_nat (t_ran t) =? o_ran o then [] else [off + 3]) ++
   (if status_code (c_row c) =? o_status o then [] else [off + 4]) ++
-  (if cnt_eqb (c_cnt c) (o_biz o) then [] else [off + 5]).
+  (if cnt_eqb (c_cnt c) (o_biz o) then [] else [off + 5]) ++
+  (if cnt_eqb (c_cnt c) (o_biz2 o) then [] else [off + 5]).
 
 Definition dop_of (k : N) (ph : phase) (f : option nat) (drv : bool) : dop :=
   if drv then DDrv k ph f else DApi k ph f.
